@@ -74,6 +74,13 @@ func c08Programs() []string {
 		"m := {zulu:1 alpha:2 mike:3 kilo:4}\nn := {alpha:2 kilo:4 mike:3 zulu:1}\nprint (m == n) (m != n)\ntest m n\ntest m {zulu:1 alpha:2 mike:3 kilo:5}\n",
 		"x:any\nx = {e:1 d:2 c:3 b:4 a:5}\nprint x (typeof x)\ny := x.({}num)\ndel y \"c\"\ny.f = 6\nprint x y\n",
 	)
+	// comparing maps of one size whose key sets differ and whose shared keys hold different values: the answer may not
+	// depend on which key the comparison meets first
+	out = append(out,
+		"m := {k1:1 k2:2 k3:3 k4:4 p1:0 p2:0}\nn := {k1:9 k2:8 k3:7 k4:6 q1:0 q2:0}\nprint (m == n) (m != n) (n == m)\nx:any\ny:any\nx = m\ny = n\nprint (x == y) ([m] == [n]) ({z:m} == {z:n})\ntest m n\n",
+		"print ({k1:1 p1:0} == {k1:9 q1:0}) ({k1:1 p1:0} != {k1:9 q1:0})\nprint ({a:[1] b:[2] c:[3] x:[0]} == {a:[9] b:[8] c:[7] y:[0]})\n",
+		"m:{}any\nn:{}any\nm = {k1:1 k2:\"s\" k3:[1] p:true}\nn = {k1:2 k2:\"t\" k3:[2] q:true}\nprint (m == n) (m != n)\ntest m n \"maps\"\n",
+	)
 	// font with several invalid properties
 	out = append(out,
 		"font {size:0 weight:0 align:\"up\" baseline:\"x\" bogus:1}\n",
